@@ -118,6 +118,9 @@ func (j *judge) replyVerdicts(si int, q *request, o observation) {
 	if o.NWrites > 1 {
 		j.violate(si, "c06/two-replies", fmt.Sprintf("%d replies to one query", o.NWrites), ctx)
 	}
+	if o.Foreign != "" {
+		j.violate(si, "rl/answer-not-for-question", "a complete answer is not the upstream's answer for the question: "+o.Foreign, ctx)
+	}
 	// ---- cookies ---------------------------------------------------------------------
 	if o.Replied && len(o.Cookie) >= 8 {
 		if prev, changed := j.r.book.learn(q.ip, o.Cookie); changed {
@@ -242,17 +245,22 @@ func (j *judge) storeVerdicts(si int, q *request, o observation, seen string, be
 }
 
 // entryVerdicts: the cache's per-entry limiter (cfg.RateLimit) -- one token per answered hit, nothing on an empty one.
-func (j *judge) entryVerdicts(si int, q *request, o observation, before int, cached bool) {
+func (j *judge) entryVerdicts(si int, q *request, o observation, before int, cached bool, inlinePaid int) (paid int) {
 	if j.b.EntryBurst <= 0 || before < 0 {
-		return
+		return 0
 	}
 	after := j.r.entryTokens(q.name)
+	paid = before - after
 	ctx := map[string]any{"seen": o.seen(), "entry_tokens_before": before, "entry_tokens_after": after, "cached_before": cached, "entry": q.st.Entry}
 	if d := before - after; d < 0 || d > 1 {
 		j.violate(si, "rl/entry-charge", fmt.Sprintf("one question changed its cache entry's limiter by %d tokens", -d), ctx)
 	}
 	if before-after == 1 && !o.Replied {
-		j.violate(si, "rl/entry-charged-unanswered", "the entry limiter was charged for a question that got no reply", ctx)
+		j.violate(si, "rl/entry-charged-unanswered", "the entry limiter was charged for a question that got no reply ("+o.seen()+")", ctx)
+	}
+	if inlinePaid+paid > 1 {
+		j.violate(si, "rl/entry-double-charge", fmt.Sprintf("one question cost its cache entry %d tokens (inline pass %d + replay pass %d)",
+			inlinePaid+paid, inlinePaid, paid), ctx)
 	}
 	if cached && before == 0 && q.st.Ex != "internal" && o.Replied && o.Rcode == 0 {
 		j.violate(si, "rl/entry-served-over-budget", "a cached answer was served although its entry limiter was empty", ctx)
@@ -260,6 +268,7 @@ func (j *judge) entryVerdicts(si int, q *request, o observation, before int, cac
 	if q.st.Ex == "internal" && before != after {
 		j.violate(si, "rl/entry-charged-internal", "an internal request was charged to the entry limiter", ctx)
 	}
+	return paid
 }
 
 func describe(b bucketObs) string {
@@ -397,6 +406,7 @@ func runBehaviour(res sink, book *cookieBook, b *behaviour, forceMsg bool) (recs
 	inlinePaid := map[int]int{}
 	inlineRan := map[int]bool{}
 	inlineTail := map[int]int{}
+	inlineEntryPaid := map[int]int{}
 	skip := map[int]bool{} // twin: replay steps folded into their inline call
 	overBudget := false
 	t0 := time.Now()
@@ -463,7 +473,10 @@ func runBehaviour(res sink, book *cookieBook, b *behaviour, forceMsg bool) (recs
 			eb, ecached := r.entryState(q.name)
 			o := r.serve(q)
 			after, la := r.projection(), r.rl.VerifLen()
-			j.entryVerdicts(si, q, o, eb, ecached)
+			epaid := j.entryVerdicts(si, q, o, eb, ecached, 0)
+			if o.Handoff {
+				inlineEntryPaid[st.ID] = epaid
+			}
 			own := st.C + "/" + st.F
 			if o.Handoff {
 				inlineRan[st.ID] = o.WirePath
@@ -526,7 +539,7 @@ func runBehaviour(res sink, book *cookieBook, b *behaviour, forceMsg bool) (recs
 				continue
 			}
 			after, la := r.projection(), r.rl.VerifLen()
-			j.entryVerdicts(si, q, o, eb, ecached)
+			j.entryVerdicts(si, q, o, eb, ecached, inlineEntryPaid[st.ID])
 			j.verdicts(si, q, o, before, after, lb, la, true, inlineRan[st.ID], inlinePaid[st.ID])
 			if !forceMsg {
 				j.compare(si, st, o, after)
